@@ -35,6 +35,7 @@ class Interp(EvalMixin):
         self.assume_true = set(assume_true)
         self.watch = watch or set()
         self.guards = guards or set()
+        self.path_cap = PATH_CAP
         self.inline_prefixes = inline_prefixes
         self.msg_field_sets = msg_field_sets or {}
         self.paths_seen = 0
@@ -259,7 +260,7 @@ class Interp(EvalMixin):
                 print(f"[dbg] {self.site(cur[0], stn)} {type(stn).__name__}: {len(cur)} -> {len(nxt)} states, abrupt {len(abrupt)}")
             if len(abrupt) > 64:
                 abrupt = _dedupe_abrupt(abrupt)
-            if len(nxt) + len(abrupt) > PATH_CAP:
+            if len(nxt) + len(abrupt) > self.path_cap:
                 raise AnalysisError(f"path cap exceeded at {self.site(cur[0], stn)}")
             cur = nxt
         return cur, abrupt
@@ -860,6 +861,11 @@ class Interp(EvalMixin):
         # status comparisons with refinement
         r = self._status_cond(test, st, abrupt)
         if r is not None:
+            if self.guards:
+                raw = " ".join(ast.unparse(test).split())
+                if raw in self.guards or any(g.startswith("*") and raw.endswith(g[1:]) for g in self.guards):
+                    for s2, t in r:
+                        s2.emit(ev("guard", self.site(s2, test), text=raw, raw=raw, truth=t))
             return r
         out = []
         for s, v in self.eval(test, st, abrupt):
